@@ -1,6 +1,7 @@
 (* Properties/C08.v — Terminate() leaves no goroutine or timer, silences cancelled work, allows restart. *)
 From GN Require Import Common.Base Common.Int64 Model.Loop Model.LoopSrc Model.LoopTime Gen.LoopSkeleton
   Proofs.LoopFrame Proofs.LoopCtl Proofs.LoopTimers Proofs.LoopInv Proofs.LoopProps Proofs.LoopTime Cases.LoopCheck Proofs.LoopReplay.
+From GN Require Import Proofs.JobsRegistry.
 Open Scope Z_scope.
 
 (* when Terminate returns: the registry is empty, no runtime timer, ticker or helper goroutine of any job exists, every
@@ -39,6 +40,23 @@ Theorem C08_restart_accepts : forall k s a b s', running s = false -> step k s s
   terminated s' = false /\ running s' = true /\ canrun s' = true.
 Proof. exact restart_accepts. Qed.
 Print Assumptions C08_restart_accepts.
+
+(* loop.jobs as the array it is. Registration records the position in job.idx; removeJob as written (move the last entry into
+   the freed slot, truncate, mark the job -1) keeps "jobs[k].idx = k and no job twice", removes exactly that job - which is the
+   set removal the model's theorems above are about - and removeJob on a job already marked -1 does nothing, so the late
+   doTimeout of a cleared timer and Terminate's drain cannot disturb other entries *)
+Theorem C08_registry_append : forall r j, reg_inv r -> ~ In j (rjobs r) -> reg_inv (reg_append r j).
+Proof. exact append_inv. Qed.
+Print Assumptions C08_registry_append.
+
+Theorem C08_registry_remove_refines_model : forall r j, reg_inv r -> In j (rjobs r) ->
+  exists r', reg_remove r j = Some r' /\ reg_inv r' /\ forall x, In x (rjobs r') <-> In x (remove_job (rjobs r) j).
+Proof. exact remove_refines_model. Qed.
+Print Assumptions C08_registry_remove_refines_model.
+
+Theorem C08_registry_remove_idempotent : forall r j, ridx r j < 0 -> reg_remove r j = Some r.
+Proof. exact remove_idempotent. Qed.
+Print Assumptions C08_registry_remove_idempotent.
 
 (* the text of eventloop/eventloop.go, and the order of its synchronisation points, are what the model was written against *)
 Theorem C08_source_tie : loop_funcs = expected_loop_funcs /\ loop_points = expected_loop_points.
